@@ -394,6 +394,48 @@ func calls(p *pkg, fd *ast.FuncDecl) []string {
 	return res
 }
 
+// typeCasesOf reports, for every call of `callee` inside fd, the type list of
+// the innermost enclosing type-switch case clause ("" when there is none).
+func typeCasesOf(p *pkg, fd *ast.FuncDecl, callee string) []string {
+	var res []string
+	if fd == nil {
+		return res
+	}
+	var walk func(n ast.Node, cur string)
+	walk = func(n ast.Node, cur string) {
+		ast.Inspect(n, func(m ast.Node) bool {
+			if m == n {
+				return true
+			}
+			switch x := m.(type) {
+			case *ast.TypeSwitchStmt:
+				for _, st := range x.Body.List {
+					cc := st.(*ast.CaseClause)
+					var tl []string
+					for _, e := range cc.List {
+						tl = append(tl, exprStr(p.fset, e))
+					}
+					label := strings.Join(tl, ",")
+					if cc.List == nil {
+						label = "default"
+					}
+					for _, b := range cc.Body {
+						walk(b, label)
+					}
+				}
+				return false
+			case *ast.CallExpr:
+				if exprStr(p.fset, x.Fun) == callee {
+					res = append(res, cur)
+				}
+			}
+			return true
+		})
+	}
+	walk(fd.Body, "")
+	return res
+}
+
 // events lists, in source order, the channel receives ("recv:<expr>") and
 // calls ("call:<fun>") of fd.
 func events(p *pkg, fd *ast.FuncDecl) []string {
@@ -810,6 +852,8 @@ func main() {
 	o.f("def calls_queueStop : List String := %s\n", leanStrList(calls(g, g.anyFunc("queue", "stop"))))
 	o.f("def guarded_pongReset : List Bool := %s\n", leanBoolList(guardedCalls(g,
 		g.anyFunc("GoBackNConn", "sendPacketsForever"), "g.pongTicker.Reset", "!g.pongTicker.IsActive()")))
+	o.f("def typecases_resendReset_recvLoop : List String := %s\n", leanStrList(typeCasesOf(g,
+		g.anyFunc("GoBackNConn", "receivePacketsForever"), "g.resendTicker.Reset")))
 	o.f("def lock_tickerResetWithInterval : String := %s\n",
 		leanStr(lockedFirst(g, g.anyFunc("IntervalAwareForceTicker", "ResetWithInterval"))))
 	o.f("def lock_tickerStop : String := %s\n",
